@@ -71,7 +71,7 @@ add("F4", B, "C01.bounds|cast|compiler::bytecodegen::ByteCodeGenerator::get_or_i
 add("F6", B, "C01.bounds|checked-unwrap|compiler::bytecodegen::ByteCodeGenerator::emit_instruction|HFloat", "array literal with more than 2049 elements: HFloat::try_from(i as f64).unwrap() panics in the bytecode generator; WASM compiles it")
 add("F5", B, "C01.bounds|bump|next_global_offset", "WASM global region 256..512 is never bounded: 150 globals overlap the state-exchange and allocation areas (dsp returns 126 instead of 225)")
 add("F26", ["C01"], "C01.tables|name|not", "builtin `not` exists only in the VM's builtin table: the WASM generator neither resolves it as an import nor is it lowered as an intrinsic; `not(0.0) + 1.0` is 2.0 on the VM and 1.0 on WASM (findings/repro/F26_builtin_not.mmm)")
-add("F27", ["C01"], "C01.prims|array-index|GetArrayElem", "array index +inf: the VM maps a non-finite index to element 0, WASM saturates it and clamps to the last element: `a[1.0/0.0]` on [10,20,30] is 10.0 on the VM and 30.0 on WASM (findings/repro/F27_array_index_inf.mmm)")
+fixed("F27", "C01", "76e23e4", "C01.prims|array-index|GetArrayElem", "array index +inf: the VM mapped a non-finite index to element 0 while WASM saturates and clamps to the last element: `a[1.0/0.0]` on [10,20,30] was 10.0 on the VM and 30.0 on WASM; the VM now saturates too (findings/repro/F27_*.mmm)")
 add("F9", ["C01"], "C01.prims|null-array|GetArrayElem", "indexing the empty rest of an array (the null array handle): the WASM host special-cases the sentinel handle and yields zeros, the VM's handle lookup panics `Invalid ArrayIdx` (findings/repro/F9_split_head_rest_index.mmm: VM panic, WASM 1.0)")
 add("F22", B, "C01.bounds|bump|state_temp_base", "WASM state-exchange region 512..1024 (64 words) is never bounded: 70 functions using `self` push GetState scratch slots into the allocation area; dsp returns 1,3,5 instead of 300 (findings/repro/F22_state_temp_overflow.mmm)")
 
